@@ -94,6 +94,33 @@ def finish (steps : List (Nat × Nat)) : List (Nat × Nat) :=
 /-- the whole function on exact inputs -/
 def spec (E t r : Nat) : Option (List (Nat × Nat)) := (expand E t r).map finish
 
+/-! ### The builder path: `Builder._build_cmds_single_qubit_rotation(instruction, vq, angle=…)`
+
+    nds = get_angle_spec_from_float(angle=angle)          -- default tolerance
+    for n, d in nds:                                       -- one rotation instruction per step
+        register = self._get_qubit_register()              -- Q0
+        set register vq ; <rot> register n d
+-/
+
+/-- pending commands appended by the builder (register operand = index of the Q register) -/
+inductive Cmd
+  | setQ (reg : Nat) (vq : Nat)
+  | rot (axis : Nat) (reg : Nat) (n d : Nat)
+  deriving DecidableEq, Repr
+
+/-- what the builder emits for a list of steps: `steps.flatMap (set; rot)` -/
+def emitRot (axis vq : Nat) (steps : List (Nat × Nat)) : List Cmd :=
+  steps.flatMap fun p => [Cmd.setQ 0 vq, Cmd.rot axis 0 p.1 p.2]
+
+/-- the (n, d) operands of the rotation instructions about `axis` in a command list -/
+def rotOperands (axis : Nat) (cmds : List Cmd) : List (Nat × Nat) :=
+  cmds.filterMap fun c => match c with
+    | .rot a _ n d => if a = axis then some (n, d) else none
+    | .setQ _ _ => none
+
+/-- the whole builder path on exact inputs -/
+def emitSpec (axis vq E t r : Nat) : Option (List Cmd) := (spec E t r).map (emitRot axis vq)
+
 /-- candidate exponents near the exact choice (a rounded `log2` can only land on a neighbour) -/
 def candidates (E r : Nat) : List Nat :=
   [dChoice E r, dChoice E r + 1, dChoice E r - 1]
